@@ -1005,4 +1005,113 @@ Proof.
   - apply Hcont. exact F.
 Qed.
 
+(* ------------------------------------------------------------------ send_tx_queue asks for a restart only
+   when the datagrams it emitted are all ST_DATA (the FIN of the RTO branch goes out only when no
+   segment is undelivered, and then nothing is left that could be too long for the path) *)
+Lemma data_pkts_nofin (s : vsock) h sent : Forall nofin (rev (map (data_pkt s h) sent)).
+Proof.
+  apply Forall_forall. intros p Hp. apply in_rev in Hp. apply in_map_iff in Hp. destruct Hp as (f & <- & _).
+  unfold nofin, data_pkt, data_hdr. cbn [p_hdr ch_type]. discriminate.
+Qed.
+
+Lemma sd_frame_restart (s s' : vsock) : sd_frame s s' -> v_restart s' = v_restart s.
+Proof. unfold sd_frame. tauto. Qed.
+
+Lemma on_rto_reactions_restart (s s' : vsock) : on_rto_reactions cci s = Some s' -> v_restart s' = v_restart s.
+Proof. unfold on_rto_reactions. destruct (on_rto_timeout _); [|discriminate]. intro H; injection H as <-. reflexivity. Qed.
+
+Lemma rto_branch_restart (s : vsock) h s1 :
+  step_st (rto_branch cci s h) = Some s1 -> v_restart s1 = v_restart s.
+Proof.
+  unfold rto_branch. destruct (timer_expired _ _); [|cbn [step_st]; intro H; injection H as <-; reflexivity].
+  destruct (iter_for_sending _ _) as [|f rest].
+  - destruct (our_fin_if_unacked _); [|cbn [step_st]; intro H; injection H as <-; reflexivity].
+    destruct (_ =? _); [|cbn [step_st]; intro H; injection H as <-; reflexivity].
+    set (sx := set_last_sent_seq_nr s (wsub16 (v_last_sent_seq_nr s) 1)).
+    pose proof (VSock_LemmasTx.maybe_send_fin_spec sx) as Hm.
+    destruct (maybe_send_fin sx) as [s2 [|]|s2 e|]; cbn [sbind step_st]; try discriminate.
+    + destruct Hm as (seq & _ & _ & Hf & _). apply sd_frame_restart in Hf.
+      destruct (on_rto_reactions cci s2) as [s3|] eqn:Er; [|discriminate].
+      apply on_rto_reactions_restart in Er. cbn [step_st]. intro H; injection H as <-.
+      change (v_restart s3 = v_restart s). rewrite Er, Hf. reflexivity.
+    + intro H; injection H as <-. destruct Hm as (Hf & _). apply sd_frame_restart in Hf. exact Hf.
+    + intro H; injection H as <-. destruct Hm as (Hf & _). apply sd_frame_restart in Hf. exact Hf.
+  - pose proof (send_data_spec s h f) as Hd.
+    destruct (send_data s h f) as [s2 [| |]|s2 e|]; cbn [step_st]; try discriminate.
+    + destruct Hd as (Hf & _). apply sd_frame_restart in Hf.
+      destruct (negb _).
+      * destruct (on_rto_reactions cci s2) as [s3|] eqn:Er; [|discriminate].
+        apply on_rto_reactions_restart in Er. cbn [step_st]. intro H; injection H as <-.
+        change (v_restart s3 = v_restart s). congruence.
+      * cbn [step_st]. intro H; injection H as <-. exact Hf.
+    + intro H; injection H as <-. destruct Hd as ((Hf & _) & _). apply sd_frame_restart in Hf. exact Hf.
+    + intro H; injection H as <-. destruct Hd as ((Hf & _) & _). apply sd_frame_restart in Hf. exact Hf.
+    + intro H; injection H as <-. destruct Hd as ((Hf & _) & _). apply sd_frame_restart in Hf. exact Hf.
+Qed.
+
+Lemma rec_items_empty (s : vsock) rc : iter_for_sending (v_segs s) None = [] -> rec_items s rc = [].
+Proof. unfold rec_items. intros ->. destruct (Z.to_nat _); reflexivity. Qed.
+
+Lemma new_branch_empty (s : vsock) h :
+  iter_for_sending (v_segs s) None = [] -> new_branch cci s h = SOk s tt.
+Proof.
+  intro Hi. unfold new_branch, new_items. rewrite (iter_none_nil _ _ Hi). reflexivity.
+Qed.
+
+Lemma after_rto_k_norestart h (s1 : vsock) ret s' u :
+  iter_for_sending (v_segs s1) None = [] -> after_rto_k cci h s1 ret = SOk s' u ->
+  v_restart s' = v_restart s1.
+Proof.
+  intros Hi. unfold after_rto_k.
+  destruct ret; [intro H; injection H as <-; reflexivity|].
+  destruct (0 <? _); [intro H; injection H as <-; reflexivity|].
+  destruct (ss_segs _); [intro H; injection H as <-; reflexivity|].
+  unfold rec_branch. destruct (rv_phase (v_recovery s1)) as [| |rc] eqn:Eph; cbn [sbind].
+  - rewrite (new_branch_empty _ _ Hi). intro H; injection H as <-; reflexivity.
+  - rewrite (new_branch_empty _ _ Hi). intro H; injection H as <-; reflexivity.
+  - rewrite (rec_items_empty _ _ Hi). cbn [recovery_loop sbind]. unfold rec_after. cbv zeta.
+    match goal with |- context [our_fin_if_unacked (v_state ?x)] =>
+      assert (F : v_restart x = v_restart s1 /\ v_segs x = v_segs s1); [|abs_as x F s3] end.
+    { unfold set_recovering. destruct (_ <? _); [|auto]. destruct (rc_recalc rc); [auto|].
+      destruct (0 <? _); auto. }
+    destruct F as [F1 F2].
+    destruct (our_fin_if_unacked _); [destruct (_ =? _)|]; cbn [sbind].
+    + intro H; injection H as <-. exact F1.
+    + rewrite new_branch_empty by (rewrite F2; exact Hi). intro H; injection H as <-. exact F1.
+    + rewrite new_branch_empty by (rewrite F2; exact Hi). intro H; injection H as <-. exact F1.
+Qed.
+
+Lemma after_rto_k_GN h (s1 : vsock) ret s' u : after_rto_k cci h s1 ret = SOk s' u -> GN s1 s'.
+Proof.
+  unfold after_rto_k.
+  destruct ret; [intro H; injection H as <-; apply GN_refl|].
+  destruct (0 <? _); [intro H; injection H as <-; apply GN_refl|].
+  destruct (ss_segs _); [intro H; injection H as <-; apply GN_refl|].
+  intro H.
+  assert (Hs : step_st (sbind (rec_branch s1 h) (fun s ret => if ret then SOk s tt else new_branch cci s h))
+               = Some s') by (rewrite H; reflexivity).
+  destruct (rec_new_emits cci _ _ _ Hs) as (sent & Ho & _).
+  exists (rev (map (data_pkt s1 h) sent)). split; [exact Ho|apply data_pkts_nofin].
+Qed.
+
+Theorem stq_restart_data (s s' : vsock) u :
+  send_tx_queue cci s = SOk s' u -> v_restart s = false -> v_restart s' = true -> GN s s'.
+Proof.
+  rewrite send_tx_queue_eq. destruct (v_transport_pending s); [intro H; injection H as <-; congruence|].
+  set (h := outgoing_header s).
+  destruct (rto_branch cci s h) as [s1 ret|s1 e|] eqn:Er; cbn [sbind]; try discriminate.
+  intros H R0 R1.
+  assert (Hs : step_st (rto_branch cci s h) = Some s1) by (rewrite Er; reflexivity).
+  pose proof (rto_branch_restart _ _ _ Hs) as Rr.
+  pose proof (rto_branch_spec cci _ _ _ Hs) as Ho. rewrite Er in Ho.
+  pose proof (after_rto_k_GN _ _ _ _ _ H) as Hl.
+  destruct Ho as [Ho _ _ _ _ _
+                 | f rest _ _ _ Ho _ _ _ _ _ _ _ _ _ _ _ _
+                 | fin _ Hit _ _ _ _ Hsg _ _ _ _ _ _ _ _].
+  - eapply GN_trans; [apply GN_eq; exact Ho|exact Hl].
+  - eapply GN_trans; [|exact Hl]. exists [data_pkt s h f]. split; [exact Ho|].
+    constructor; [|constructor]. unfold nofin, data_pkt, data_hdr. cbn [p_hdr ch_type]. discriminate.
+  - exfalso. rewrite <- Hsg in Hit. pose proof (after_rto_k_norestart _ _ _ _ _ Hit H) as K. congruence.
+Qed.
+
 End WithCC.
